@@ -51,7 +51,7 @@ package taskpool
 //@   at call:AddInt64#1 ghost { tp.gOwed = tp.gOwed - 1 }
 
 // the dispatcher: owes nothing between two tasks
-//@ func New$3
+//@ func New$2
 //@   props C19
 //@   safety index slice nil div assert panic make
 //@   requires tp != nil && tp.caller != nil && tp.gOwed == 0
